@@ -36,6 +36,9 @@ class Communities(Attribute):
     ID = Attribute.CODE.COMMUNITY
     FLAG = Attribute.Flag.TRANSITIVE | Attribute.Flag.OPTIONAL
 
+    # RFC 7606 7.8: a malformed COMMUNITIES attribute is handled as treat-as-withdraw
+    TREAT_AS_WITHDRAW = True
+
     def __init__(self, packed: Buffer = b'') -> None:
         """Initialize from packed wire-format bytes.
 
